@@ -510,19 +510,21 @@ PROPS["C34"] = {
     "anchors": [("get_next_available_lines", "src/policy/immix/immixspace.rs"), ("mark_lines_for_object", "src/policy/immix/line.rs"),
                 ("BlockState", "src/policy/immix/block.rs"), ("get_index_within_block", "src/policy/immix/line.rs")],
     "kani": {"prefix": "c34_", "files": ["c34_immix.rs", "side.rs", "vm.rs"], "timeout_quick": 1800, "timeout_thorough": 3600,
-             "features_thorough": [[], ["immix_smaller_block"]]},
+             "features_thorough": [[], ["immix_smaller_block"]],
+             # any-cursor hole search and block-sized objects finish only for 32-line blocks (40 and 27 minutes); with 128-line blocks CBMC needs more than an hour
+             "harness_features": {"c34_hole_search_deep": ["immix_smaller_block"], "c34_mark_lines_for_object_deep": ["immix_smaller_block"]}},
     "functions": ["impl From<u8> for BlockState / From<BlockState> for u8, BlockState::is_reusable", "Block::{get_state, set_state, line_mark_table}",
                   "Line::{block, get_index_within_block, mark, is_marked, mark_lines_for_object}", "ImmixSpace::get_next_available_lines (run on explicit line states through a hook)",
                   "MetadataByteArrayRef::{new, get, len}"],
     "explanation": "Complete (all inputs; loops bounded by the code constant Block::LINES = 128, unwinding assertions on): every byte decodes to a block state that encodes "
                    "back to it and every state the sweeper produces round-trips; line/block index arithmetic for every line address; hole search on a fully symbolic line-mark "
-                   "table of one block with symbolic block address, cursor (quick tier: in the last 24 lines; thorough tier: anywhere), current line mark state and last-full-GC state (both in 1..=127): the result is None iff no line "
+                   "table of one block with symbolic block address, cursor (in the last 24 lines of a 128-line block; anywhere in a 32-line block in the thorough tier), current line mark state and last-full-GC state (both in 1..=127): the result is None iff no line "
                    "at/after the cursor is available, otherwise the first maximal run of available lines -- in particular no returned line carries the current or the last "
                    "full-GC mark; marking the lines of an object marks every line it spans, changes no other line mark and returns the number of newly marked lines "
-                   "(objects up to 1 KiB in the quick tier, up to a whole block in the thorough tier); block state set/get through the side table touches only that block's byte. "
+                   "(objects up to 1 KiB; up to a whole block for 32-line blocks in the thorough tier); block state set/get through the side table touches only that block's byte. "
                    "NOT reached: the state-cycling arithmetic inside ImmixSpace::prepare/release (needs a live space), so the >127-GC wrap argument rests on the unchecked assumption "
                    "that prepare keeps line_mark_state in 1..=127 and release copies it to line_unavail_state; level 'other'.",
-    "bounds": ["Block::LINES = 128 (code constant; 32 with immix_smaller_block in the thorough tier)", "quick tier: hole-search cursor in the last 24 lines of the block, object size <= 1024 bytes for mark_lines_for_object; thorough tier: any cursor, objects up to a block"],
+    "bounds": ["Block::LINES = 128 (code constant; 32 with immix_smaller_block in the thorough tier)", "128-line blocks: hole-search cursor in the last 24 lines of the block, object size <= 1024 bytes for mark_lines_for_object (both tiers); 32-line blocks (immix_smaller_block, thorough tier): any cursor, objects up to a block"],
     "assumptions": ["ImmixSpace::prepare keeps line_mark_state within 1..=127 and release copies it into line_unavail_state (not under contract)",
                     "Block::sweep resets stale line marks often enough for the wrap-around (not under contract)"],
     "trusted_base": ["kani::stub of global_side_metadata_base_address", "hook get_next_available_lines_with_states builds an ImmixSpace of which only the two line-state fields are initialised"],
